@@ -456,6 +456,17 @@ BRIDGE = {
                      "version_sign_prefix_eq", "version_supported_versions_wire_eq"],
         "props": ["C05", "C10", "C12"],
     },
+    "Rough.Bridge.Sign": {
+        "rs_modules": ["Sign"],
+        "theorems": ["signer_from_seed_sim", "signer_update_eq", "signer_sign_eq", "signer_public_key_bytes_eq", "verifier_new_sim",
+                     "verifier_update_eq", "verifier_verify_sim"],
+        "props": ["C13"],
+    },
+    "Rough.Bridge.Envelope": {
+        "rs_modules": ["Envelope"],
+        "theorems": ["decrypt_seed_sim", "decrypt_seed_no_panic"],
+        "props": ["C14"],
+    },
     "Rough.Bridge.Merkle": {
         "rs_modules": ["Merkle"],
         "theorems": ["new_eq", "node_len_eq", "hash_leaf_eq", "hash_nodes_eq", "finalize_output_sim", "push_leaf_sim", "reset_eq",
@@ -473,6 +484,8 @@ _BRIDGE_WHAT = {
     "Rough.Bridge.Merkle": "merkle.rs (push_leaf, compute_root, get_paths, root_from_paths, reset)",
     "Rough.Bridge.Client": "roughenough-client.rs (make_request, receive_response, ResponseHandler::new + extract_time with every validate_* step)",
     "Rough.Bridge.Keys": "online.rs / longterm.rs / responder.rs (make_dele, make_cert, classic_midp, rfc_midp, make_srep, make_response, add_*_request, reset)",
+    "Rough.Bridge.Sign": "sign.rs (MsgSigner from_seed / update / sign / public_key_bytes, MsgVerifier new / update / verify; ed25519-dalek = the abstract scheme)",
+    "Rough.Bridge.Envelope": "kms/envelope.rs decrypt_seed (blob parser, provider unwrap, AEAD open; ring AES-256-GCM and the provider are the model's abstract Aead / Kms)",
     "Rough.Bridge.Tables": "tag.rs / version.rs (wire values, from_wire, is_nested, names, signing contexts, supported-versions list: the tables the other generated modules use through externs)",
     "Rough.Bridge.SendResponses": "responder.rs send_responses (the whole batch loop incl. failing sends, fault injection, lazily evaluated debug! arguments, statistics events)",
 }
